@@ -216,7 +216,7 @@ def greedy_compressed(inputs, output, size_dict, memory_limit=None, **kwargs):
     try:
         chi = kwargs.pop("chi")
     except KeyError:
-        chi = max(size_dict.values()) ** 2
+        chi = max(size_dict.values(), default=1) ** 2
     return GreedyCompressed(chi, **kwargs)(inputs, output, size_dict)
 
 
@@ -224,7 +224,7 @@ def trial_greedy_compressed(inputs, output, size_dict, **kwargs):
     try:
         chi = kwargs.pop("chi")
     except KeyError:
-        chi = max(size_dict.values()) ** 2
+        chi = max(size_dict.values(), default=1) ** 2
     return GreedyCompressed(chi, **kwargs).search(inputs, output, size_dict)
 
 
